@@ -151,6 +151,20 @@ func genConf(t *rapid.T) vlib.Conf {
 	if rapid.IntRange(0, 3).Draw(t, "bulk") != 0 {
 		genBulk(t, conf, strict)
 	}
+	if rapid.IntRange(0, 2).Draw(t, "choice-content") == 0 {
+		// members of several cases of the choices (different owners make different cases win): the choice resolution is
+		// consulted by every traversal of the validators
+		pool := []string{"/chc/ca", "/chc/ca2", "/chc/cb", "/chc/cbc/x", "/chc/cl", "/chc/other", "/chc/nest/oi/na", "/chc/nest/oi/nb", "/chc/nest/oi/nb2", "/chc/nest/oi/oil", "/chc/nest/o1l", "/chc/nest/oc",
+			"/chc/ce[name=a]/ia", "/chc/ce[name=a]/ib", "/chc/ce[name=b]/ib2", "/chc/ce[name=b]/pv"}
+		for i, n := 0, rapid.IntRange(1, 6).Draw(t, "nchoice"); i < n; i++ {
+			p := rapid.SampledFrom(pool).Draw(t, "choice-member")
+			v := "v1"
+			if p == "/chc/cl" {
+				v = "[v1,v2]"
+			}
+			conf[p] = v
+		}
+	}
 	if len(conf) == 0 {
 		conf["/cons/lo"] = "1"
 	}
